@@ -62,7 +62,7 @@ func (w *World) Infos() []*resource.Info {
 			cps = append(cps, corev1.ContainerPort{Name: cp.Name, ContainerPort: int32(cp.Num), Protocol: corev1.Protocol(cp.Proto)})
 		}
 		tmpl := corev1.PodTemplateSpec{ObjectMeta: metav1.ObjectMeta{Labels: wl.Labels},
-			Spec: corev1.PodSpec{Containers: []corev1.Container{{Name: "c", Image: "x", Ports: cps}}}}
+			Spec: corev1.PodSpec{Containers: Containers(cps)}}
 		r := int32(wl.Replicas)
 		switch wl.Kind {
 		case "Deployment":
@@ -430,7 +430,7 @@ func InfoPod(ns, name, owner string, labels map[string]string, ports []CPort) *r
 		cps = append(cps, corev1.ContainerPort{Name: cp.Name, ContainerPort: int32(cp.Num), Protocol: corev1.Protocol(cp.Proto)})
 	}
 	p := &corev1.Pod{ObjectMeta: metav1.ObjectMeta{Name: name, Namespace: ns, Labels: labels},
-		Spec:   corev1.PodSpec{Containers: []corev1.Container{{Name: "c", Image: "x", Ports: cps}}},
+		Spec:   corev1.PodSpec{Containers: Containers(cps)},
 		Status: corev1.PodStatus{HostIP: "192.168.1.1", PodIPs: []corev1.PodIP{{IP: "10.0.0.1"}}}}
 	if owner != "" {
 		t := true
@@ -452,4 +452,19 @@ func InfoYAML(infos []*resource.Info) []string {
 		res = append(res, string(b))
 	}
 	return res
+}
+
+// Containers spreads the container ports over two containers (even positions in the first, odd
+// positions in the second) behind a container without ports, so that code which looks only at the
+// first container, or stops at the first container that has ports, is visible.
+func Containers(cps []corev1.ContainerPort) []corev1.Container {
+	cs := []corev1.Container{{Name: "sidecar-without-ports", Image: "x"}, {Name: "c0", Image: "x"}}
+	if len(cps) > 1 {
+		cs = append(cs, corev1.Container{Name: "c1", Image: "x"})
+	}
+	for i, cp := range cps {
+		k := 1 + i%2
+		cs[k].Ports = append(cs[k].Ports, cp)
+	}
+	return cs
 }
